@@ -102,6 +102,7 @@ def run(ctx):
     resume_follows_clear(ctx, "C06")
     saved_context_is_a_copy(ctx, "C06")
     detector_walk_every_tick(ctx, "C06")
+    detector_group_runs_every_detector(ctx, "C06")
     from .C11 import instances_kept_only_if_ran
     instances_kept_only_if_ran(ctx)
     # locals / parameters the rules below refer to by name (a rename makes the analysis 'broken', never a violation)
@@ -339,12 +340,4 @@ def run(ctx):
                               "a plugin outside the documented two returns ASYNC_PAUSED")
 
     # ---- 6. suspended state is per ruleset instance
-    rc = P.classes.get("Oomd::Engine::Ruleset")
-    if not rc:
-        ctx.broken("ruleset-class", "anchor", "-", "class Oomd::Engine::Ruleset not found")
-    else:
-        for fld in ("active_action_chain_state_", "pause_actions_until_", "plugin_overrode_post_action_delay_"):
-            rec = [x for x in rc["fields"] if x["name"] == fld]
-            ctx.check(rec and not rec[0].get("static"), "per-instance-state:" + fld, "storage_class",
-                      "oomd/engine/Ruleset.h:%d" % (rec[0]["line"] if rec else 0),
-                      fld + " is a non-static member", fld + " is missing or static (shared between rulesets)")
+    ruleset_state_is_per_instance(ctx)
